@@ -130,9 +130,23 @@ const (
 	sPanicString
 	sPanicError
 	sPanicNil
+	// error values a finaliser might be tempted to treat specially
+	sErrCtxCanceled
+	sErrCtxDeadline
+	sErrWrappedCtx
+	sErrTxDone
+	sErrEOF
+	sErrGormInvalidTx
+	sLast = sErrGormInvalidTx
 )
 
-var kindNames = []string{"ok", "ok+exec", "returns-error", "exec-fails", "panics(string)", "panics(error)", "panics(nil)"}
+var kindNames = []string{"ok", "ok+exec", "returns-error", "exec-fails", "panics(string)", "panics(error)", "panics(nil)",
+	"returns-context.Canceled", "returns-context.DeadlineExceeded", "returns-wrapped-context.Canceled", "returns-sql.ErrTxDone", "returns-io.EOF", "returns-gorm.ErrInvalidTransaction"}
+
+var specialErrs = map[stepKind]error{
+	sErrCtxCanceled: context.Canceled, sErrCtxDeadline: context.DeadlineExceeded, sErrWrappedCtx: fmt.Errorf("step failed: %w", context.Canceled),
+	sErrTxDone: sql.ErrTxDone, sErrEOF: io.EOF, sErrGormInvalidTx: gorm.ErrInvalidTransaction,
+}
 
 func (k stepKind) fails() bool { return k >= sErr }
 
@@ -164,9 +178,11 @@ func mkStep(i int, k stepKind, e *env, r *run) gormx.GormProcFn {
 			panic(fmt.Sprintf("step %d blew up", i))
 		case sPanicError:
 			panic(panicErr{})
-		default:
+		case sPanicNil:
 			var p interface{}
 			panic(p)
+		default:
+			return specialErrs[k]
 		}
 	}
 }
@@ -300,9 +316,13 @@ func check(c *seq.Ctx, kinds []stepKind, failBegin, failCommit, failRollback boo
 					if !errors.Is(res, errExec) {
 						fail("the result is not the first failing step's error", "wrong error")
 					}
-				default:
+				case sPanicString, sPanicError, sPanicNil:
 					if !strings.Contains(res.Error(), "panic") {
 						fail("the result does not describe the panic", "wrong error")
+					}
+				default:
+					if !errors.Is(res, specialErrs[kinds[firstFail]]) {
+						fail("the result is not the first failing step's error", "wrong error")
 					}
 				}
 			}
@@ -316,7 +336,7 @@ func main() {
 	r := ev.Start("C18")
 	r.Rule("every step list of length 0..n over {ok, ok+Exec, returns error, Exec fails, panics(string), panics(error), panics(nil)} x begin ok/fails x commit ok/fails x rollback ok/fails x {plain, Combine(all), Combine(tail), nested Combine}, run through gormx.Transact on gorm's MySQL dialector over an in-process database/sql driver that records Begin/Exec/Commit/Rollback; distinct = (length, outcome class, fault pattern, wrapping)")
 	r.Assume("a failing driver callback has no effect", "panic(nil) follows the toolchain's semantics for the harness module (go 1.21: *runtime.PanicNilError)")
-	n := r.Pick(3, 5)
+	n := r.Pick(3, 4)
 	seq.RunFamily(r, seq.Family{Name: "transact", Run: func(c *seq.Ctx) {
 		kinds := make([]stepKind, 0, n)
 		var rec func(target int)
@@ -339,7 +359,7 @@ func main() {
 				}
 				return
 			}
-			for k := sOK; k <= sPanicNil; k++ {
+			for k := sOK; k <= sLast; k++ {
 				kinds = append(kinds, k)
 				rec(target)
 				kinds = kinds[:len(kinds)-1]
